@@ -4,6 +4,8 @@ package c07
 
 import (
 	"fmt"
+	"runtime"
+	"strings"
 	"testing"
 	"unsafe"
 
@@ -79,6 +81,36 @@ func TestC07Kept(t *testing.T) {
 			}
 			rep.Class(fmt.Sprintf("kept/%s/round%d", form, round))
 		}
+		// after the last Reset only ONE of the two methods is configured again through its kept object: the other one
+		// is not mocked in this round - calling it is "method not implements", not the replacement of an earlier round
+		{
+			c := map[string]interface{}{"form": form, "round": "only Get again"}
+			var perr interface{}
+			func() {
+				defer func() { perr = recover() }()
+				get.Apply(func(ctx *mocker.IContext, k string) int { return 555 })
+			}()
+			rep.Eval(2)
+			if perr != nil {
+				rep.Violate("C07/kept-handle-configuration-refused", fmt.Sprintf("%s, only Get again: %v", form, perr), c)
+			} else {
+				var g, p int
+				var gerr, perr2 interface{}
+				func() { defer func() { gerr = recover() }(); g = v.Get("x") }()
+				func() { defer func() { perr2 = recover() }(); p = v.Put("x", 1) }()
+				if gerr != nil || g != 555 {
+					rep.Violate("C07/kept-handle-stale-replacement", fmt.Sprintf("%s, only Get configured again after Reset: Get = %d (panic %v), want 555", form, g, gerr), c)
+				}
+				if perr2 == nil {
+					rep.Violate("C07/replacement-of-an-earlier-round-still-reachable", fmt.Sprintf("%s: after Reset only Get was configured again, yet Put answers %d (a replacement from before the Reset) instead of \"method not implements\"", form, p), c)
+				} else if !strings.Contains(fmt.Sprint(perr2), "not implements") {
+					rep.Violate("C07/replacement-of-an-earlier-round-still-reachable", fmt.Sprintf("%s: after Reset only Get was configured again; calling Put panics with %q instead of \"method not implements\" (a stub from before the Reset ran)", form, fmt.Sprint(perr2)), c)
+				}
+			}
+			b.Reset()
+			v = nil
+			rep.Class("kept/" + form + "/only-one-method-again")
+		}
 	}
 }
 
@@ -148,4 +180,59 @@ func TestC07PreMockValues(t *testing.T) {
 			}
 		}
 	}
+}
+
+type oneMethod interface{ Only(a int) int }
+type twoMethods interface {
+	First(a int) int
+	Second(a int) int
+}
+
+var c07Churn [][]uintptr
+
+// TestC07TableLifetime: the method table a mocked variable points to belongs to the mock; it stays valid across
+// collections and the reuse of freed memory for as long as the variable is mocked - also for an interface with a single
+// method (nothing is ever added to that table later).
+func TestC07TableLifetime(t *testing.T) {
+	rep := vmon.NewReport("C07")
+	defer rep.Write()
+	var one oneMethod
+	var two twoMethods
+	b := mocker.Create()
+	b.Interface(&one).Method("Only").Apply(func(ctx *mocker.IContext, a int) int { return a + 7000 })
+	b.Interface(&two).Method("First").Apply(func(ctx *mocker.IContext, a int) int { return a + 8000 })
+	rounds := vmon.EnvInt("VERIF_C07_TABLEROUNDS", 30)
+	for r := 0; r < rounds; r++ {
+		rep.Journal(map[string]interface{}{"part": "table-lifetime", "round": r, "crashkey": "C07/method-table-freed-while-mocked"})
+		runtime.GC()
+		// blocks of every size class around a method table, filled with a value that is no code address
+		c07Churn = c07Churn[:0]
+		for _, words := range []int{64, 128, 256, 512, 1024, 1152, 2048} {
+			for j := 0; j < 300; j++ {
+				blk := make([]uintptr, words)
+				for k := range blk {
+					blk[k] = 0x11
+				}
+				c07Churn = append(c07Churn, blk)
+			}
+		}
+		var g1, g2 int
+		var perr interface{}
+		func() {
+			defer func() { perr = recover() }()
+			g1, g2 = one.Only(r), two.First(r)
+		}()
+		rep.Eval(2)
+		if perr != nil || g1 != r+7000 || g2 != r+8000 {
+			rep.Violate("C07/method-table-freed-while-mocked", fmt.Sprintf("after %d collections with freed memory reused: one-method interface Only(%d) = %d, two-method interface First(%d) = %d, panic %v; want %d and %d", r+1, r, g1, r, g2, perr, r+7000, r+8000), map[string]interface{}{"collections": r + 1})
+			break
+		}
+	}
+	b.Reset()
+	if one != nil || two != nil {
+		rep.Violate("C07/not-restored", "variables not nil after Reset", nil)
+	}
+	rep.Stat("table_lifetime_collections", int64(rounds))
+	rep.Class("table-lifetime/one-method")
+	rep.Class("table-lifetime/two-methods")
 }
